@@ -33,7 +33,9 @@ CFG = {
     "modelled": ["parsing/lexer.rs memstr, skip_tag, find_start_marker, basic_tokenize (all three states, every token kind, "
                  "span bookkeeping of advance!), whitespace_filter", "delimiters.rs Delimiters::validate",
                  "parsing/parser.rs 1661-1666 (empty Content dropped)"],
-    "assumptions": ["lex_print is stated for documents whose raw tags are spelled with single spaces (`{% raw %}`, `{% endraw %}`); "
+    "assumptions": ["the model describes lexer.rs WITH fixes/D6-comment-resets-trim.patch applied (Model/Lexer.v comment_flag_fixed = true); "
+                    "on a tree without the patch the check reports the D6 cases (A {{ 1 -}}{# c #}  B) as violations, which is what they are",
+                    "lex_print is stated for documents whose raw tags are spelled with single spaces (`{% raw %}`, `{% endraw %}`); "
                     "other spellings are covered by the correspondence run only",
                     "expressions and tags are opaque: their interior is whatever the lexer model's scan_inside accepts; what they "
                     "evaluate to is outside this property",
